@@ -1401,6 +1401,22 @@ class Analyzer:
                     r2 = self.model.resolve_global(r[1], v.value.id)
                     if r2 and r2[0] == "value":
                         return ("attr", ("global", r2[1], r2[2]), v.attr)
+                # ... `_INSIDE = slice(1, -1)` is that slice
+                if isinstance(v, ast.Call) and isinstance(v.func, ast.Name) and v.func.id == "slice" and not v.keywords and \
+                        1 <= len(v.args) <= 3 and self.model.resolve_global(r[1], "slice") is None:
+                    def _c(a):
+                        if isinstance(a, ast.Constant) and (a.value is None or type(a.value) is int):
+                            return ("const", a.value)
+                        if isinstance(a, ast.UnaryOp) and isinstance(a.op, ast.USub) and isinstance(a.operand, ast.Constant) and type(a.operand.value) is int:
+                            return ("const", -a.operand.value)
+                        return None
+                    parts = [_c(a) for a in v.args]
+                    if all(p_ is not None for p_ in parts):
+                        if len(parts) == 1:
+                            parts = [NONE, parts[0]]
+                        while len(parts) < 3:
+                            parts.append(NONE)
+                        return ("slice", parts[0], parts[1], parts[2])
                 # ... and `_VALID_PORTS = range(65536)` is that range
                 if isinstance(v, ast.Call) and isinstance(v.func, ast.Name) and v.func.id == "range" and not v.keywords and \
                         1 <= len(v.args) <= 2 and all(isinstance(a, ast.Constant) and type(a.value) is int for a in v.args) and \
